@@ -471,7 +471,7 @@ func (p *partition) newSubscribeLoop(ctx context.Context, groupID, consumerID st
 		p.increaseSubscriberCount()
 		defer p.decreaseSubscriberCount()
 		if groupID != "" {
-			defer p.removeGroupSubscriber(groupID, consumerID)
+			defer p.removeGroupSubscriber(groupID, consumerID, cancel)
 		}
 
 		headersBuf := make([]byte, 28)
@@ -556,14 +556,17 @@ func (p *partition) newSubscribeLoop(ctx context.Context, groupID, consumerID st
 	}
 }
 
-func (p *partition) removeGroupSubscriber(groupID, consumerID string) {
+func (p *partition) removeGroupSubscriber(groupID, consumerID string, cancel <-chan struct{}) {
 	p.consumersMu.Lock()
 	defer p.consumersMu.Unlock()
 	sub, ok := p.consumers[groupID]
 	if !ok {
 		return
 	}
-	if sub.consumerID == consumerID {
+	// Only remove the entry if it still belongs to the subscription that is
+	// ending. The consumer may have been replaced by a newer subscription
+	// (possibly with the same consumer ID) in the meantime.
+	if sub.consumerID == consumerID && (<-chan struct{})(sub.sub.closed) == cancel {
 		delete(p.consumers, groupID)
 	}
 }
